@@ -86,28 +86,41 @@ where
     id
 }
 
-/// Marks the current thread as blocked
+/// `thread::park`: consumes the park token if there is one, otherwise blocks
+/// the current thread until it is unparked.
 pub(crate) fn park(location: Location) {
     let switch = execution(|execution| {
-        use thread::State;
         let thread = execution.threads.active_id();
         let active = execution.threads.active_mut();
 
-        trace!(?thread, ?active.state, "park");
+        trace!(?thread, ?active.state, ?active.park_token, "park");
 
-        match active.state {
-            // The thread was previously unparked while it was active. Instead
-            // of parking, consume the unpark.
-            State::Runnable { unparked: true } => {
-                active.set_runnable();
-                return false;
-            }
-            // The thread doesn't have a saved unpark; set its state to blocked.
-            _ => active.set_blocked(location),
-        };
+        if active.park_token {
+            // The thread was previously unparked. Instead of parking, consume
+            // the unpark.
+            active.park_token = false;
+            return false;
+        }
 
-        execution.threads.active_mut().set_blocked(location);
-        execution.threads.active_mut().operation = None;
+        active.parked = true;
+        active.set_blocked(location);
+        active.operation = None;
+        execution.schedule()
+    });
+
+    if switch {
+        Scheduler::switch();
+    }
+}
+
+/// Blocks the current thread until the primitive it waits on wakes it
+/// (`thread::Set::wake`). Unlike `park`, no token is involved.
+pub(crate) fn block(location: Location) {
+    let switch = execution(|execution| {
+        let active = execution.threads.active_mut();
+
+        active.set_blocked(location);
+        active.operation = None;
         execution.schedule()
     });
 
